@@ -40,6 +40,9 @@ def make_case(rng, fmt):
     def bound(lo=2, hi=20000):
         if lo <= 2 and rng.random() < 0.12:
             return 1.0 if fmt in INTFMT or rng.random() < 0.5 else 0.5     # small positive bounds are bounds, not "unbounded"
+        if hi >= 40000 and fmt in ("naunet", "umist", "uclchem", "krome") and rng.random() < 0.1:
+            # limits of a million kelvin and more with many significant digits (wider than the native format's usual column)
+            return rng.choice([1234567.0, 2345678.0, 12345678.0, 1000001.0])
         if rng.random() < 0.3:
             # round bounds as database files have them (10, 300, 2000, 5500, 1e4, 41000): these are the ones written as 2.d3 / 1d4
             cand = [v for v in (10, 20, 50, 100, 200, 300, 500, 1000, 2000, 3000, 5000, 5500, 8000, 10000, 20000, 30000, 41000) if lo <= v <= hi]
@@ -158,6 +161,21 @@ def run_case(case, ctx):
         import traceback
         return {"status": "violated", "violations": [violation("generator_raised", f"{fmt}: {type(e).__name__}: {e}", trace=traceback.format_exc()[-1000:])],
                 "obs": dict(obs), "sample": sample}
+    # ---- the network written in the native format and read back declares the same windows (to the two printed decimals)
+    try:
+        wf = work / "rewritten.naunet"
+        net.write(str(wf), "naunet")
+        Species.reset()
+        net_b = Network(filelist=str(wf), fileformats="naunet")
+        obs["windows_after_native_rewrite_checked"] += 1
+        w0 = [(float(f"{q.temp_min:.2f}"), float(f"{q.temp_max:.2f}")) for q in net.reaction_list]
+        w1 = [(q.temp_min, q.temp_max) for q in net_b.reaction_list]
+        if w0 != w1:
+            k = next((i for i, (a, c) in enumerate(zip(w0, w1)) if a != c), -1)
+            viol.append(violation("window_changed_by_native_rewrite", f"{fmt}: reaction {k} declares {w0[k] if k >= 0 else len(w0)}, after write + read in the native "
+                                  f"format {w1[k] if k >= 0 else len(w1)}"))
+    except Exception as e:
+        obs["native_rewrite_refused"] += 1
     bounds = sorted({b for r in reacs for b in (r["tmin"], r["tmax"]) if b > 0})
     temps = {1e-3, 1e9}
     for bnd in bounds:
